@@ -60,9 +60,9 @@ pub fn profile(prop: &str) -> Profile {
     };
     match prop {
         "C05" => Profile { prop: "C05", caps: &[16, 32, 64], p_twin: (1, 3), ..base },
-        "C06" => Profile { prop: "C06", caps: &[1, 2, 3, 5, 6, 8], w_drop_consumer: 1, ..base },
+        "C06" => Profile { prop: "C06", caps: &[1, 2, 3, 5, 6, 8], w_drop_consumer: 1, p_auditor: (1, 2), ..base },
         "C07" => Profile { prop: "C07", w_tx: 30, chain: ChainSel::Any, chain_len: (0, 1), ..base },
-        "C08" => Profile { prop: "C08", w_drop_vec: 8, caps: &[1, 2, 3, 4, 8, 16], ..base },
+        "C08" => Profile { prop: "C08", w_drop_vec: 8, caps: &[1, 2, 3, 4, 8, 16], p_auditor: (1, 2), ..base },
         "C09" => Profile { prop: "C09", chain: ChainSel::Hts, chain_len: (1, 1), w_lim: 14, ..base },
         "C10" => Profile { prop: "C10", chain: ChainSel::Filter, chain_len: (1, 1), caps: &[1, 2, 4, 16, 64], ..base },
         "C11" => Profile { prop: "C11", chain: ChainSel::Sort, chain_len: (1, 1), caps: &[1, 2, 4, 16, 64], ..base },
@@ -489,7 +489,40 @@ pub fn gen_case(prop: &str, rng: &mut Rng) -> Case {
             }
             8 => {
                 producer = false;
-                steps.push(Step::Poll(rng.below(sh.consumers)));
+                if !config.auditor && !in_tx && !sh.dropped && rng.chance(1, 2) {
+                    // F8: the writer thread runs in the middle of this poll
+                    let k = 1 + rng.below(capacity.min(6) + 2);
+                    let mut ops = Vec::new();
+                    for _ in 0..k {
+                        let n = sh.cur_len();
+                        ops.push(match rng.below(10) {
+                            0..=5 => {
+                                sh.set_len(n + 1);
+                                Step::PushBack(value(&mut sh, rng))
+                            }
+                            6 => {
+                                sh.set_len(n.saturating_sub(1));
+                                Step::PopFront
+                            }
+                            7 => Step::Set(rng.below(n.max(1)), value(&mut sh, rng)),
+                            8 => {
+                                sh.set_len(n + 1);
+                                Step::Insert(rng.below(n + 1), value(&mut sh, rng))
+                            }
+                            _ => {
+                                sh.set_len(n.saturating_sub(1));
+                                Step::Remove(rng.below(n.max(1)))
+                            }
+                        });
+                    }
+                    let drop_vector = rng.chance(1, 6);
+                    if drop_vector {
+                        sh.dropped = true;
+                    }
+                    steps.push(Step::PollPreempted { j: rng.below(sh.consumers), at: *rng.pick(&[0u8, 0, 1, 1, 2, 3, 4, 6]), ops, drop_vector });
+                } else {
+                    steps.push(Step::Poll(rng.below(sh.consumers)));
+                }
             }
             9 => {
                 producer = false;
